@@ -1,7 +1,8 @@
 #!/usr/bin/env python3
 """constwrites.py -- C20 tie: from the clang JSON AST of the CURRENT sources, the table of every `const`
 member function of TopologyKernel / ResourceManager (its base) / GeometryKernel / the tetrahedral and
-hexahedral kernels, and every constructor / operator / method of the iterator and circulator classes, with
+hexahedral kernels / the property handle and storage classes (PropertyPtr, PropertyStoragePtr, PropertyStorageT,
+PropertyStorageBase), and every constructor / operator / method of the iterator and circulator classes, with
 
   (i)   members assigned through `this` directly (own state),
   (ii)  members written THROUGH a pointer/reference member of `this` (state of another object, e.g. the mesh),
@@ -32,7 +33,9 @@ class TranslatorError(Exception):
     pass
 
 KERNEL_CLASSES = {"TopologyKernel", "ResourceManager", "GeometryKernel", "TetrahedralMeshTopologyKernel",
-                  "HexahedralMeshTopologyKernel"}
+                  "HexahedralMeshTopologyKernel",
+                  # reading property values through existing handles (properties.jsonl C20 observe_at: PropertyPtr::operator[] const)
+                  "PropertyPtr", "PropertyStoragePtr", "PropertyStorageT", "PropertyStorageBase"}
 ITER_RE = re.compile(r"(Iter|Circulator)")
 # the one piece of state const calls may legally touch (property creation/destruction), which the property excludes
 ALLOWED_MUTABLE = ["ResourceManager::storage_trackers_"]
@@ -106,7 +109,12 @@ def root(n, via=False):
         if b.get("kind") == "CXXThisExpr": return (name, via)
         return root(ks[0], via or (bool(n.get("isArrow")) and b.get("kind") != "CXXThisExpr"))
     if k == "ArraySubscriptExpr": return root(kids(n)[0], via) if kids(n) else None
-    if k == "UnaryOperator" and n.get("opcode") == "*": return root(kids(n)[0], True) if kids(n) else None
+    if k == "UnaryOperator" and n.get("opcode") == "*":
+        if not kids(n): return None
+        if strip(kids(n)[0]).get("kind") == "CXXThisExpr": return ("*this", via)      # (*this): the object itself, not a pointer member
+        return root(kids(n)[0], True)
+    if k in ("CXXOperatorCallExpr", "CXXMemberCallExpr", "CallExpr") and n.get("valueCategory") == "prvalue" and not qual(n).rstrip().endswith("*"):
+        return None                 # a value returned by copy is a temporary, not (part of) a member
     if k == "CXXOperatorCallExpr":
         ks = kids(n)
         return root(ks[1], via) if len(ks) > 1 else None
@@ -221,6 +229,7 @@ def generate():
             if "parentDeclContextId" in n:          # out-of-line definition: class and signature text of the in-class declaration
                 prev, hops = n.get("previousDecl"), 0
                 while prev is not None and prev not in inclass and hops < 8: prev, hops = prev_of.get(prev), hops + 1
+                if prev not in inclass and n.get("id") in inclass: prev = n["id"]     # explicit specialisation of a member template: listed in-class under the same id
                 owner, sig = (inclass[prev][0], qual(inclass[prev][1])) if prev in inclass else (None, sig)
             if owner is not None and interesting(owner):
                 key = (owner, n.get("name", "?"), sig)
@@ -259,6 +268,7 @@ def generate():
     for need_cls, need in (("TopologyKernel", ["halfedge", "halfface", "is_boundary", "valence", "find_halfedge", "find_halfface", "incident_cell", "adjacent_halfface_in_cell", "is_deleted"]),
                            ("GeometryKernel", ["vertex", "barycenter", "normal", "vector", "length"]),
                            ("TetrahedralMeshTopologyKernel", ["get_cell_vertices"]), ("HexahedralMeshTopologyKernel", ["xfront_halfface", "adjacent_halfface_on_sheet"]),
+                           ("PropertyStoragePtr", ["operator[]", "at", "size"]), ("PropertyStorageT", ["operator[]", "at", "size"]),
                            ("VertexOHalfEdgeIter", ["VertexOHalfEdgeIter", "operator++"]), ("HalfEdgeHalfFaceIter", ["HalfEdgeHalfFaceIter", "operator++"]),
                            ("CellVertexIter", ["CellVertexIter", "operator++"]), ("BoundaryItemIter", ["BoundaryItemIter", "operator++"])):
         have = {x[1] for x in rows if x[0] == need_cls and x[4] is not None}
@@ -266,7 +276,7 @@ def generate():
             if m not in have: raise TranslatorError("expected member not found in the AST (renamed or moved?): %s::%s" % (need_cls, m))
     if len(kernel_rows) < 100 or len(iter_rows) < 100:
         raise TranslatorError("suspiciously small table: %d const kernel members, %d iterator members" % (len(kernel_rows), len(iter_rows)))
-    return render(rows, sorted(mutable_ids.values()))
+    return render(rows, sorted(set(mutable_ids.values())))
 
 def gstr(s): return '"' + s.replace('"', '""') + '"'
 def glist(xs): return "[" + "; ".join(gstr(x) for x in sorted(xs)) + "]"
@@ -278,7 +288,7 @@ From Coq Require Import String List Bool Arith.
 Import ListNotations.
 Local Open Scope string_scope.
 
-Inductive mkind := KConst (* const member of a kernel class *) | KIter (* member of an iterator / circulator class *).
+Inductive mkind := KConst (* const member of a kernel / property-storage class *) | KIter (* member of an iterator / circulator class *).
 
 Record cmethod := {
   m_class : string; m_name : string; m_sig : string; m_kind : mkind;
